@@ -87,6 +87,7 @@ type Case struct {
 	Screen    bool         `json:"screen"`
 	Wrap      string       `json:"wrap"` // "" = all commands, "none", "probe"
 	Editor    string       `json:"editor"`
+	Hold      bool         `json:"hold"`    // the terminal holds its answers to cursor queries from the start of every session
 	Local     string       `json:"local"`   // local keymap set by the probe command "probe-setlocal"
 	RawOut    bool         `json:"rawout"`  // log the raw bytes written to the tty at every wait
 	DumpCfg   bool         `json:"dumpcfg"` // log the bind tables and variables after set-up
@@ -540,6 +541,7 @@ func runCase(cs *Case, ci int, pty *ptyPair, em *emu, home string) (alive bool) 
 		g = newGate()
 		readline.VerifSetStdin(g)
 		curSess = si
+		em.setHold(cs.Hold)
 		logj(map[string]any{"ev": "session", "c": cs.ID, "s": si})
 		go func() {
 			defer func() {
@@ -630,12 +632,65 @@ func runCase(cs *Case, ci int, pty *ptyPair, em *emu, home string) (alive bool) 
 					reportHang("gate")
 					break steps
 				}
+			case "waitheld": // until the terminal holds at least N unanswered cursor queries (or the call ended)
+				want := a.N
+				if want < 1 {
+					want = 1
+				}
+				deadline := time.Now().Add(hangTO)
+				for em.held() < want && !isDone() && time.Now().Before(deadline) {
+					time.Sleep(200 * time.Microsecond)
+				}
+				if em.held() < want && !isDone() {
+					reportHang("waitheld")
+					break steps
+				}
+			case "sharedread":
+				// deliver bytes in the same read as the answer to a pending cursor query; when the library asks
+				// for keys instead (no query outstanding), deliver them as an ordinary read
+				deadline := time.Now().Add(hangTO)
+				delivered := false
+				for !delivered && !isDone() && time.Now().Before(deadline) {
+					if em.held() >= 1 {
+						b := unhex(a.H)
+						logj(map[string]any{"ev": "read", "c": cs.ID, "s": si, "bytes": bytesInts(b), "fault": "", "shared": true})
+						em.releaseOpt(99, b, a.S == "unhold")
+						delivered = true
+						break
+					}
+					select {
+					case <-g.waitCh:
+						parked = true
+						em.drain()
+						flushToks(si)
+						m := snap()
+						m["ev"], m["s"], m["n"] = "wait", si, nwait
+						nwait++
+						logj(m)
+						b := unhex(a.H)
+						logj(map[string]any{"ev": "read", "c": cs.ID, "s": si, "bytes": bytesInts(b), "fault": "", "shared": false})
+						if a.S == "unhold" {
+							em.setHold(false)
+						}
+						pty.master.Write(b)
+						parked = false
+						g.actCh <- "read"
+						delivered = true
+					default:
+						time.Sleep(200 * time.Microsecond)
+					}
+				}
+				if !delivered && !isDone() {
+					reportHang("sharedread")
+					break steps
+				}
 			case "hold":
 				em.setHold(true)
 			case "unhold":
 				em.setHold(false)
 			case "rel":
-				em.release(a.N, unhex(a.H))
+				// S == "unhold": stop holding in the same critical section (no query can slip in between)
+				em.releaseOpt(a.N, unhex(a.H), a.S == "unhold")
 			case "type": // write bytes to the tty without touching the gate
 				pty.master.Write(unhex(a.H))
 			case "letgo":
